@@ -4,6 +4,7 @@ from __future__ import annotations
 import gzip
 import io
 import os
+import shutil
 import struct
 
 from harness import core
@@ -380,15 +381,15 @@ def gen_long_record(rng, kind, visor_magic):
     return m
 
 
-def gen_archive(rng, tier, plain_only=False, with_long=False):
+def gen_archive(rng, tier, plain_only=False, with_long=False, kinds=None):
     nmax = 30 if tier == "thorough" else 14
     n = rng.weighted([(0, 1), (1, 2), (2, 3), (rng.randint(3, nmax), 12)])
     mix = "std" if plain_only else rng.weighted([("visor", 4), ("mixed", 5), ("std", 1)])
     items = []
     for _ in range(n):
         visor = {"visor": True, "std": False, "mixed": rng.chance(0.6)}[mix]
-        kind = rng.weighted([("file", 10), ("empty", 2), ("dir", 3), ("sym", 1), ("lnk", 1), ("fifo", 1), ("chr", 1),
-                             ("unknown", 1), ("cont", 1), ("v7dir", 1), ("areg", 1)])
+        kind = rng.weighted(kinds or [("file", 10), ("empty", 2), ("dir", 3), ("sym", 1), ("lnk", 1), ("fifo", 1), ("chr", 1),
+                                      ("unknown", 1), ("cont", 1), ("v7dir", 1), ("areg", 1)])
         m = gen_member(rng, visor, kind)
         if with_long and rng.chance(0.35):
             recs = rng.weighted([(["L"], 5), (["K"], 2), (["L", "K"], 2), (["K", "L"], 1), (["L", "L"], 1)])
@@ -1135,6 +1136,99 @@ class VmTarSuite(Suite):
         return case
 
 
+class ExtractAllSuite(Suite):
+    """Whole-archive extraction to a directory (TarFile.extractall through vmtar.open): archives of regular files, empty
+    files and directories under a handful of safe relative names, so that paths repeat (a file updated, or truncated to
+    empty, later in the archive) while the data areas lie in any order.  The tree on disk holds, for every path, the bytes of
+    the LAST header with that path — what per-member extraction gives for that member (C20's main suite) and what every
+    tar reader does."""
+    name = "extractall"
+    shard = 50
+    per_case_timeout = 60.0
+
+    def generate(self, rng, tier):
+        out = []
+        for _ in range(60 if tier == "thorough" else 10):
+            c = gen_archive(rng, tier, kinds=[("file", 8), ("empty", 3), ("dir", 2)])
+            dirs = [b"d0/", b"d1/", b"d0/sub/"]
+            files = [b"g0", b"g1.txt", b"d0/f0", b"d0/f1", b"d1/f0", b"d0/sub/deep", b"boot.log"]
+            for m in c["items"]:
+                m["name"] = hx(rng.pick(dirs) if spec_type(m) == 53 else rng.pick(files))
+                m["prefix"] = ""
+                m["mode"] = rng.pick([0o644, 0o755, 0o600])
+                m["uid"] = m["gid"] = 0
+            c["stream"] = "wf"
+            c["access"] = rng.pick(["open", "gz"])
+            out.append(c)
+        return out
+
+    def impl(self, case):
+        import tarfile
+        from dissect.hypervisor.util import vmtar
+        _, data = case_bytes(case)
+        per = drive(data, "open", True)
+        if per["open"] is not None or per.get("list"):
+            return {"per": "listing failed"}
+        want = {}
+        for m in per["members"]:
+            nm = m["name"].rstrip(b"/")
+            if m["type"] == 53:
+                want[nm] = None
+            elif isinstance(m.get("x"), (bytes, bytearray)):
+                want[nm] = bytes(m["x"])
+            else:
+                return {"per": f"member extraction: {str(m.get('x'))[:80]}"}
+        d = os.path.join(_scratch_root(), f"xa{os.getpid()}")
+        shutil.rmtree(d, ignore_errors=True)
+        os.makedirs(d)
+        try:
+            blob = gzip.compress(data, mtime=0) if case["access"] == "gz" else data
+            try:
+                with vmtar.open(fileobj=io.BytesIO(blob)) as tar:
+                    tar.extractall(d, filter="data")
+            except Exception as e:  # noqa: BLE001
+                return {"per": None, "exc": f"{type(e).__name__}: {str(e)[:100]}", "want": len(want)}
+            got = {}
+            for root, dns, fns in os.walk(d):
+                for n in dns:
+                    got[os.path.relpath(os.path.join(root, n), d).encode()] = None
+                for n in fns:
+                    with open(os.path.join(root, n), "rb") as fh:
+                        got[os.path.relpath(os.path.join(root, n), d).encode()] = fh.read()
+            bad = []
+            for k in sorted(set(want) | set(got)):
+                if k not in got:
+                    if want[k] is not None or not any(g.startswith(k + b"/") for g in got):
+                        bad.append([k.decode(), "missing on disk"])
+                elif k not in want:
+                    if got[k] is not None:                    # (parent directories of files are created implicitly)
+                        bad.append([k.decode(), "not in the archive"])
+                elif want[k] is not None and got[k] != want[k]:
+                    bad.append([k.decode(), f"{len(got[k] or b'')} bytes on disk differ from the {len(want[k])} bytes of the last "
+                                            f"header with this path"])
+            return {"per": None, "bad": bad, "want": len(want), "repeats": len(per["members"]) - len(want)}
+        finally:
+            shutil.rmtree(d, ignore_errors=True)
+
+    def judge(self, case, impl_res, coq_val):
+        if impl_res.get("outcome"):
+            return [Finding("impl_fault", f"extractall: implementation {impl_res['outcome']}", "vmtar:extractall:" + impl_res["outcome"])]
+        if impl_res.get("per"):
+            return []                 # the archive does not list / extract member by member: the main suite's business
+        if impl_res.get("exc"):
+            return [Finding("impl_vs_spec", f"extractall of a well-formed archive raised {impl_res['exc']}", "vmtar:extractall:exc")]
+        if impl_res["bad"]:
+            return [Finding("impl_vs_spec", f"extractall: the tree on disk differs from the archive: {impl_res['bad'][:4]}",
+                            "vmtar:extractall:tree")]
+        return []
+
+    def nontrivial(self, case, impl_res, coq_val):
+        return core.sha(core.jdump(case).encode()) if impl_res.get("repeats") else None
+
+    def dist(self, case):
+        return {"members": len(case["items"]) // 5 * 5, "placement": case["placement"]}
+
+
 class FarSuite(Suite):
     """Visor archives whose data areas lie far into the file (around and beyond 2 GiB, up to just below 4 GiB: the recorded
     data offset is an unsigned 32-bit field), on a sparse file: every member extracts the bytes at its recorded offset and
@@ -1217,4 +1311,4 @@ class FarSuite(Suite):
         return {"members": len(case["items"]), "beyond_2g": sum(1 for m in case["items"] if m["voff"] >= (1 << 31))}
 
 
-SUITES = {"vmtar": VmTarSuite(), "far": FarSuite()}
+SUITES = {"vmtar": VmTarSuite(), "far": FarSuite(), "extractall": ExtractAllSuite()}
